@@ -198,11 +198,30 @@ def parse_reqs(kind, text):
         return None
 
 
+def poetry_entries(text):
+    """every dependency entry of a poetry pyproject.toml, by table: {"<table>/<name>": "<constraint as written>"}"""
+    try:
+        po = tomllib.loads(text).get("tool", {}).get("poetry", {})
+    except Exception:
+        return {}
+    out = {}
+    tables = {"dependencies": po.get("dependencies", {}), "dev-dependencies": po.get("dev-dependencies", {})}
+    for g, body in (po.get("group") or {}).items():
+        tables[f"group.{g}"] = (body or {}).get("dependencies", {})
+    for t, deps in tables.items():
+        for k, v in (deps or {}).items():
+            out[f"{t}/{k}"] = json.dumps(v, sort_keys=True)
+    return out
+
+
 EXTRA_MANIFESTS = {
-    "requirements.txt": ["requests==2.31.0\r\nflask>=2\r\n", "requests\n\n# trailing comment", "Security==1.0\n", "DEFUSEDXML\nflask_wtf\n", "defusedxml>=0.6 # pinned\n",
+    "requirements.txt": ["requests==2.31.0\r\nflask>=2\r\n", "requests\ndefusedxml==0.7.1\t# pinned\nflask\n", "defusedxml==0.7.1# pinned\n", "requests\n\n# trailing comment", "Security==1.0\n", "DEFUSEDXML\nflask_wtf\n", "defusedxml>=0.6 # pinned\n",
                          "black ; python_version > '3.8'\npkg[extra]~=1.0\n", "-r base.txt\n"],
     "pyproject.toml": ['[project]\nname = "x"\nversion = "0.1"\ndependencies = []\n', '[project]\nname = "x"\nversion = "0.1"\ndependencies = [\n  "Defusedxml>=0.1",\n  "requests",\n]\n',
-                       '[tool.poetry]\nname = "x"\nversion = "0.1"\n[tool.poetry.dependencies]\npython = "^3.10"\n\n[tool.poetry.group.dev.dependencies]\nmypy = "*"\n'] + [
+                       '[tool.poetry]\nname = "x"\nversion = "0.1"\n[tool.poetry.dependencies]\npython = "^3.10"\n\n[tool.poetry.group.dev.dependencies]\nmypy = "*"\n',
+                       # a type checker and the stub package of the dependency, pinned by the project: the pin stays
+                       '[tool.poetry]\nname = "x"\nversion = "0.1"\n[tool.poetry.dependencies]\npython = "^3.10"\nrequests = "^2"\n\n[tool.poetry.group.dev.dependencies]\nmypy = "^1.0"\ntypes-defusedxml = "~0.6"\n',
+                       '[tool.poetry]\nname = "x"\nversion = "0.1"\n[tool.poetry.dependencies]\npython = "^3.10"\nmypy = "^1.0"\ntypes-defusedxml = "~0.6"\n'] + [
                        # poetry tables that already declare the package, in the constraint spellings poetry accepts
                        f'[tool.poetry]\nname = "x"\nversion = "0.1"\n\n[tool.poetry.dependencies]\npython = "^3.10"\n{name} = "{spec}"\nrequests = "^2"\n'
                        for name, spec in [("defusedxml", "^0"), ("DefusedXML", "^0"), ("defusedxml", "^0.7"), ("Defusedxml", "^0.7.1"), ("defusedxml", ">=0.7"), ("defusedxml", "~0.7"), ("defusedxml", "0.7.1")]],
@@ -240,7 +259,9 @@ def cli_case(case):
         for k in kinds:
             out["manifests"][k] = {"before": parse_reqs(k, before[k].decode("utf-8", "replace")), "after": parse_reqs(k, mid[k].decode("utf-8", "replace")),
                                    "text_before": before[k].decode("utf-8", "replace"), "text_after": mid[k].decode("utf-8", "replace"),
-                                   "crlf_lost": b"\r\n" in before[k] and b"\r\n" not in mid[k] and before[k] != mid[k]}
+                                   "crlf_lost": b"\r\n" in before[k] and b"\r\n" not in mid[k] and before[k] != mid[k],
+                                   "poetry_before": poetry_entries(before[k].decode("utf-8", "replace")) if k == "pyproject.toml" else {},
+                                   "poetry_after": poetry_entries(mid[k].decode("utf-8", "replace")) if k == "pyproject.toml" else {}}
         return out
     finally:
         shutil.rmtree(root, ignore_errors=True)
@@ -314,6 +335,9 @@ def search(ctx):
                     present = pkg in m["before"]
                     fail("already-declared" if present else "new-requirement-count", f"{k}: {pkg} now declared {m['after'].count(pkg)} time(s) (before {m['before'].count(pkg)})",
                          layout=layout, spelling="case" if present else "")
+            altered = sorted(e for e, v in m["poetry_before"].items() if m["poetry_after"].get(e) != v)
+            if altered:
+                fail("declared-entry-altered", f"{k}: entries the project declared were changed or removed: " + ", ".join(f"{e}: {m['poetry_before'][e]} -> {m['poetry_after'].get(e)}" for e in altered), layout="poetry")
             if m["crlf_lost"]:
                 fail("crlf-manifest-rewritten", f"{k}: CRLF line endings rewritten with LF", layout="crlf")
         if r["second_changed"]:
